@@ -149,8 +149,31 @@ def run(ctx: Ctx) -> None:
     tie_and_search(ctx, vm, built)
     from . import c04_contexts
     c04_contexts.run(ctx)
+    identical_twins(ctx)
     ctx.resolve_broken({"derived_nodes_are_leaves": "visits:", "schedules_are_permutations": "visits:",
                         "every_node_once": "visits:", "spec_children_covered": "visits:",
                         "every_check_once": "visits:", "subscription_exact": "visits:",
                         "translate visitor (traverser.py, visitor.py, mapping.py, mypy sources)": ("visits:", "context:")},
                        b.first_error if b else "")
+
+
+def identical_twins(ctx: Ctx) -> None:
+    """"Once and only once": no run reports the very same diagnostic (file, line, column, code, message) twice.  Looked for on the
+    repository's test data and on the committed corpora, which include every way a callee's signature is found (corpus/C10/callables.py)."""
+    import glob
+    from collections import Counter
+
+    from refurb.main import run_refurb
+    from refurb.settings import Settings
+    from ..core import VERIF
+    files = sorted(glob.glob(str(REPO / "test" / "data" / "*.py"))) + [str(VERIF / "corpus" / p) for p in
+                                                                        ("C10/callables.py", "C04/kitchen.py", "C07/layouts.py", "C10/nested.py", "C10/same_names.py")]
+    out = run_refurb(Settings(files=files, enable_all=True, quiet=True))
+    seen = Counter((e.filename, e.line, e.column, f"{e.prefix}{e.code}", e.msg) for e in out if not isinstance(e, str))
+    ctx.count("diagnostics-looked-at-for-identical-twins", sum(seen.values()))
+    for (fn, ln, col, code, msg), n in sorted(seen.items()):
+        ctx.case(("twin", Path(fn).name, ln, col, code), nontrivial=n > 1)
+        if n > 1:
+            text = Path(fn).read_text().split("\n")[ln - 1].strip()
+            ctx.report(f"twice:{code}:{Path(fn).name}:{text[:40]}", f"{code} is reported {n} times for the same place {Path(fn).name}:{ln}:{col + 1} (`{text[:60]}`): {msg[:80]}",
+                       {"file": fn, "line": ln, "column0": col, "code": code, "message": msg, "times": n, "source_line": text, "cmd": f"refurb --enable-all {fn}"})
